@@ -486,5 +486,65 @@ theorem mem_zip_map_self {α β : Type} (f : α → β) {q : α} {l : List α} (
     · simp only [List.map_cons, List.zip_cons_cons, List.mem_cons]
       exact .inr (ih h')
 
+/-! ### registers constructed directly with layout / trap ids -/
+
+theorem allOnTraps_spec (L : Layout) (qs : List (QId × RPos)) (ids : List Nat)
+    (hl : ids.length = qs.length) (h : allOnTraps L qs ids = true) :
+    qs.map (·.2) = ids.map (fun t => (L.trapCoord t).map (fun (z : Int) => (z : Rat))) := by
+  induction qs generalizing ids with
+  | nil =>
+    cases ids with
+    | nil => rfl
+    | cons i is => simp at hl
+  | cons q qs ih =>
+    cases ids with
+    | nil => simp at hl
+    | cons i is =>
+      simp only [allOnTraps, Bool.and_eq_true, onTrap, beq_iff_eq] at h
+      simp only [List.map_cons, h.1, ih is (by simpa using hl) h.2]
+
+/-- Everything a successful direct construction establishes. -/
+theorem mkRegisterDirect_ok {L : Layout} {dim : Nat} {qs : List (QId × RPos)} {ids : List Nat}
+    {r : Reg} (h : mkRegisterDirect L dim qs ids = .ok r) :
+    qs ≠ [] ∧ L.dim = dim ∧ ids.Nodup ∧ ids.length = qs.length ∧ (∀ i ∈ ids, i < L.nTraps) ∧
+    allOnTraps L qs ids = true ∧
+    r = { dim := dim, qubits := (qs.map (·.1)).zip (ids.map L.trapCoord), trapIds := ids } := by
+  unfold mkRegisterDirect at h
+  by_cases h1 : qs.isEmpty = true
+  · rw [if_pos h1] at h; cases h
+  · rw [if_neg h1] at h
+    by_cases h2 : L.dim ≠ dim
+    · rw [if_pos h2] at h; cases h
+    · rw [if_neg h2] at h
+      by_cases h3 : ¬ ids.Nodup
+      · rw [if_pos h3] at h; cases h
+      · rw [if_neg h3] at h
+        by_cases h4 : ids.length ≠ qs.length
+        · rw [if_pos h4] at h; cases h
+        · rw [if_neg h4] at h
+          by_cases h5 : ¬ (ids.all fun i => decide (i < L.nTraps)) = true
+          · rw [if_pos h5] at h; cases h
+          · rw [if_neg h5] at h
+            by_cases h6 : ¬ allOnTraps L qs ids = true
+            · rw [if_pos h6] at h; cases h
+            · rw [if_neg h6] at h
+              cases h
+              refine ⟨?_, by simpa using h2, by simpa using h3, by simpa using h4, ?_,
+                by simpa using h6, rfl⟩
+              · intro e; rw [e] at h1; exact h1 rfl
+              · simpa using h5
+
+theorem mkRegisterDirect_accepts {L : Layout} {dim : Nat} {qs : List (QId × RPos)} {ids : List Nat}
+    (h1 : qs ≠ []) (h2 : L.dim = dim) (h3 : ids.Nodup) (h4 : ids.length = qs.length)
+    (h5 : ∀ i ∈ ids, i < L.nTraps) (h6 : allOnTraps L qs ids = true) :
+    mkRegisterDirect L dim qs ids =
+      .ok { dim := dim, qubits := (qs.map (·.1)).zip (ids.map L.trapCoord), trapIds := ids } := by
+  have e1 : qs.isEmpty = false := by
+    cases qs with
+    | nil => exact absurd rfl h1
+    | cons _ _ => rfl
+  have e5 : (ids.all fun i => decide (i < L.nTraps)) = true := by simpa using h5
+  simp [mkRegisterDirect, e1, h2, h3, h4, e5, h6]
+
 end Layout
 end Pulser
